@@ -965,6 +965,20 @@ static void prop_c16_table(const vf::Case& c, Ctx& ctx)
         et.add_back(v2::playlist_entity_row{0, lids[0], 987654, uuid, 0, 0});
         ctx.label("dangling-entities");
     }
+    if (h.coin())
+    {
+        // rows that are related by VALUE rather than by id (states a player reaches in ordinary use): a track stamped with the library's
+        // current played indicator ("played in this session"), a track whose origin is this very library, an entity of another database
+        auto info = lib.information().get();
+        size_t k = h.below(tids.size());
+        t.set_played_indicator(tids[k], std::optional<int64_t>{info.current_played_indicator});
+        t.set_is_played(tids[k], true);
+        t.set_origin_database_uuid(tids[h.below(tids.size())], uuid);
+        et.add_back(v2::playlist_entity_row{0, lids[0], tids[0], "foreign-uuid-0", 0, 0});
+        if (h.coin())
+            lib.information().update_current_played_indicator(info.current_played_indicator);  // rewrite of the same value
+        ctx.label("value-related-rows");
+    }
     auto observe_lib = [&](v2::engine_library& L) { return observe_tables(L, schema, tids, true); };
     auto observe_all = [&]() { return observe_lib(lib); };
     auto& sh = vfshim::state();
